@@ -6,6 +6,7 @@ package simnode
 import (
 	"encoding/json"
 	"fmt"
+	"github.com/xuperchain/xupercore/kernel/engines/xuperos"
 	"path/filepath"
 	"sync"
 
@@ -107,6 +108,9 @@ type Node struct {
 	Log      *CapLogger
 
 	RecoverWG *sync.WaitGroup // see WaitQuiescent
+
+	chainMu sync.Mutex
+	chain   *xuperos.Chain
 }
 
 func envFor(w *memkv.World) *xconf.EnvConf {
